@@ -5,7 +5,7 @@ WT=/tmp/wt_run_$ID
 cd /verif
 git -C /repo worktree add -f $WT HEAD -q 2>/dev/null
 git -C $WT checkout -q --detach $(git -C /repo rev-parse HEAD); git -C $WT checkout -- .
-PATCHES="$@"; [ -z "$PATCHES" ] && PATCHES=$(ls /verif/mutants/$ID/*.patch /verif/seeded/$ID-*/patch.diff 2>/dev/null)
+PATCHES="$@"; [ -z "$PATCHES" ] && PATCHES=$(ls /verif/mutants/$ID/*.patch /verif/seeded/$ID-*/patch.diff /verif/seeded/${ID}r2-*/patch.diff 2>/dev/null)
 for p in $PATCHES; do
   git -C $WT checkout -- . ; git -C $WT clean -fdq
   if ! git -C $WT apply $p 2>/tmp/apply_err_$ID; then echo "MUTANT $p: PATCH-DOES-NOT-APPLY $(head -1 /tmp/apply_err_$ID)"; continue; fi
